@@ -221,9 +221,28 @@ def canon_key(ex, obs=None) -> str:
     orphan nodes left in the file."""
     m = ex.model
 
+    # canonical position of every node: ranks among siblings (by creation) from its root
+    paths = {}
+
+    def walk_paths(handle, prefix):
+        for rank, c in enumerate(sorted(m.kids(handle))):
+            paths[c] = prefix + (rank,)
+            walk_paths(c, paths[c])
+
+    for r in m.roots:
+        walk_paths(r, (r,))
+    by_uid = {}
+    for i in m.nodes:
+        by_uid.setdefault(str(ex.uid[i]), []).append(i)
+
+    def twin(idx):
+        """position of the entity of the OTHER workspace that carries the same identifier
+        (a cross-workspace copy keeps the uid: later operations can tell the pair apart)"""
+        others = [j for j in by_uid.get(str(ex.uid[idx]), []) if j != idx]
+        return sorted(paths[j] for j in others) or None
+
     def node_canon(idx):
         nd = m.nodes[idx]
-        member_of = {}
         par = m.nodes.get(nd.parent)
         pg_in = sorted(name for name, mem in (par.pgs.items() if par is not None else []) if idx in mem)
         return [
@@ -237,6 +256,7 @@ def canon_key(ex, obs=None) -> str:
             [nd.msrc[0] == idx, nd.msrc[1]],
             pg_in,
             sorted(nd.pgs),
+            twin(idx),
             [node_canon(c) for c in sorted(nd.children)],
         ]
 
